@@ -12,7 +12,7 @@ Show == PrintT(<<"EXP", Traces[tid].id, l, ToJson(Proj(cfg, r'))>>)
 XNext == \/ IsEvent("arrive") /\ Arrive(Ev[l].args[1]) /\ Show
          \/ IsEvent("eof") /\ PeerClose /\ Show
          \/ IsEvent("respond") /\ Respond /\ Show
-         \/ IsEvent("timeout") /\ BodyTimeout /\ Show
+         \/ IsEvent("timeout") /\ (IF CanTimeout(r, cfg) THEN BodyTimeout ELSE UNCHANGED <<vars, step>>) /\ Show
          \/ IsEvent("shutdown") /\ Shutdown /\ Show
 XSpec == XInit /\ [][XNext]_<<vars, step, tid, l>>
 =============================================================================
